@@ -130,6 +130,16 @@ def run_pair(acc, wd, idx, sch, rng):
             return
         acc.count('types_compared')
     for d in sch.composites():
+        # untouched, default-constructed messages (first arms, first enumerators) must agree as well
+        try:
+            dx, dy = getattr(mod_p, d.name)().encode('<'), getattr(mod_i, d.name)().encode('<')
+        except Exception:  # noqa - a never-assigned bytes field cannot be encoded (recorded finding of C01)
+            dx = dy = None
+        if dx != dy:
+            acc.violation(PROP, 'default-constructed-message-differs-between-front-ends',
+                          witness(type=d.name, prophy=C.hexs(dx), isar=C.hexs(dy)))
+            return
+        acc.count('default_messages_compared')
         for mode, v in V.value_set(sch, w, d.name, rng, nrand=1, aligned_greedy=False):
             try:
                 x, y = getattr(mod_p, d.name)(), getattr(mod_i, d.name)()
